@@ -106,6 +106,12 @@ def rowOf {σ α ξ β} (m : Machine σ α ξ) (score : Series α → Series α 
 def honestRow {σ α ξ β} (m : Machine σ α ξ) (μ : Series α → Series α → β) (retData : Bool) (h : Honest σ α) : Row α β :=
   rowOf m μ retData h
 
+/-- the row of an honest result, or the exception the honest fold raised -/
+def rowE {σ α ξ β} (m : Machine σ α ξ) (score : Series α → Series α → β) (retData : Bool) :
+    Except Evaluate.Err (Honest σ α) → Except Evaluate.Err (Row α β)
+  | .error e => .error e
+  | .ok h => .ok (rowOf m score retData h)
+
 /-- prepend to a successful list -/
 def consOk {ε γ} (a : γ) : Except ε (List γ) → Except ε (List γ)
   | .error e => .error e
@@ -116,6 +122,12 @@ def collect {ε γ} : List (Except ε γ) → Except ε (List γ)
   | [] => .ok []
   | .error e :: _ => .error e
   | .ok a :: l => consOk a (collect l)
+
+/-- the table `evaluate` returns for the rows (or the exception) of the folds: the score column is
+named after the metric; a table needs at least one fold -/
+def tableOf {α β} (nm : String) : Except Evaluate.Err (List (Row α β)) → Except Evaluate.Err (Table α β)
+  | .error e => .error e
+  | .ok rows => if rows.isEmpty then .error .key else .ok ⟨"test_" ++ nm, rows⟩
 
 /-- the calls an honest evaluation of split number `i` makes -/
 def honestCalls {α ξ} (strategy : Strategy) (fp : Option Int) (i : Nat) (d : FoldData α ξ) : List (Call α ξ) :=
@@ -134,17 +146,22 @@ def obsLabels {α ξ} : Call α ξ → List Int
   | .update y X => labels y ++ (match X with | some X => labels X | none => [])
   | .predict _ _ => []
 
-/-- folds as C01 proves them for every valid splitter: positions inside the series, non-empty
-training window, non-empty increasing test window, exogenous test rows inside the series, and no training position of a fold at or
-after a test position of the same or any later fold -/
+/-- one fold as C01 proves it for every valid splitter: positions inside the series, non-empty
+training window, non-empty increasing test window, exogenous test rows inside the series, every
+training position before every test position -/
+structure FoldOK (n : Int) (fhMin : Int) (f : Fold) : Prop where
+  xrows_range : ∀ p ∈ xRows fhMin f, 0 ≤ p ∧ p < n
+  train_range : ∀ p ∈ f.1, 0 ≤ p ∧ p < n
+  test_range : ∀ q ∈ f.2, 0 ≤ q ∧ q < n
+  train_nonempty : f.1 ≠ []
+  test_nonempty : f.2 ≠ []
+  test_sorted : f.2.Pairwise (· < ·)
+  train_lt_test : ∀ p ∈ f.1, ∀ q ∈ f.2, p < q
+
+/-- … and the folds in order: no training position of a fold is at or after a test position of
+any later fold -/
 structure FoldsOK (n : Int) (fhMin : Int) (fs : List Fold) : Prop where
-  xrows_range : ∀ f ∈ fs, ∀ p ∈ xRows fhMin f, 0 ≤ p ∧ p < n
-  train_range : ∀ f ∈ fs, ∀ p ∈ f.1, 0 ≤ p ∧ p < n
-  test_range : ∀ f ∈ fs, ∀ q ∈ f.2, 0 ≤ q ∧ q < n
-  train_nonempty : ∀ f ∈ fs, f.1 ≠ []
-  test_nonempty : ∀ f ∈ fs, f.2 ≠ []
-  test_sorted : ∀ f ∈ fs, f.2.Pairwise (· < ·)
-  same_fold : ∀ f ∈ fs, ∀ p ∈ f.1, ∀ q ∈ f.2, p < q
+  each : ∀ f ∈ fs, FoldOK n fhMin f
   earlier_fold : fs.Pairwise (fun f g => ∀ p ∈ f.1, ∀ q ∈ g.2, p < q)
 
 /-- time points are distinct and ordered -/
